@@ -8,6 +8,10 @@ BUILT = {
          "independent EM byte parser + row model; recovery obligation after faults", "4/C01"),
 }
 PLANNED = {}
+BUILT["C03"] = ("RELION conversion: seeded sessions export lists to RELION 3.0/3.1/4.0 tables and STAR files (name formats, optics on/off, "
+                "interleaved versions from one object), restart, import from file and memory, run the emmotl2relion/relion2emmotl/"
+                "relion2stopgap/stopgap2relion pipelines; independent RELION writer with px/Angstrom origins; disk faults and crashes; "
+                "explicit ZYZ/zxz matrix convention + row model + independent STAR tokenizer", "4/C03")
 BUILT["C04"] = ("STOPGAP conversion: seeded sessions hold tables/Motl/StopgapMotl (arbitrary index labels), filter in place, convert, "
                 "write .star/.em with update_coord/reset_index, restart, load; foreign STOPGAP writer; disk faults and crashes; "
                 "renaming-table + parity model, independent STAR tokenizer and EM parser", "4/C04")
